@@ -1,11 +1,8 @@
 SPECIFICATION Spec
 CONSTANTS
-  TokSet = {"a", "e_s", "if_t", "else", "end", "for_x", "break"}
-  MaxToks = 4
-  Libs = {0}
-  AEs = {"xhtml_escape", "None"}
-  WSs = {"all"}
-  SLen = 0
+  Fams = {"lex", "text", "control", "while", "try", "tryloop", "apply", "loader", "ws", "errors", "values", "escfiles"}
+  Grow = 0
+  SLen = 1
   Fuel = 3
 VIEW View
 INVARIANT TypeOK
